@@ -321,9 +321,15 @@ HostileClauses(c, begin, e, stats) ==
       belowRejectedLink == \E i \in DOMAIN stats : /\ CleanInside(stats[i].raw) /\ stats[i].p \notin rej
                                                     /\ \E a \in rej : /\ Len(a) < Len(stats[i].p) /\ SubSeq(stats[i].p, 1, Len(a)) = a
                                                                       /\ Has(before, a) /\ At(before, a).t = "symlink"
-  IN (IF begin.outsideBefore # e.outsideAfter \/ ("dstRootGone" \in DOMAIN e /\ e.dstRootGone)
+      touchedObs == begin.outsideBefore # e.outsideAfter \/ ("dstRootGone" \in DOMAIN e /\ e.dstRootGone)
+  IN (IF touchedObs
       THEN (IF belowRejectedLink THEN {"C03.outsideTouched/explainedByEntryBelowRejectedDirectory"} ELSE {"C03.outsideTouched"})
       ELSE {})
+     \* conformance of the algorithm-layer model ReceiveLinksMC (cases enumerated by TLC): the real call fails exactly where
+     \* the model's run fails and touches the outside exactly where the model's does.  Not a verdict of any property
+     \* (prefix MODEL): a disagreement without a violation makes the run inconclusive
+     \cup Cl("linkModel" \in DOMAIN begin /\ ((c.retR # "ok") # begin.linkModel.fails \/ touchedObs # begin.linkModel.touched),
+             "MODEL.receiveLinksOutcomeDiffers")
      \cup Cl((firstBad # 0 \/ c.rMustFail) /\ c.retR = "ok", "C03.invalidStreamAccepted")
      \* "applied" = the entry exists afterwards as a new or replaced inode.  A stale destination
      \* entry of that name that disappears is the (legitimate) effect of the valid prefix.
